@@ -161,9 +161,6 @@ func (idx *WorkspaceIndex) addFileIndex(path string, fi *FileIndex) {
 	for _, date := range fi.Dates {
 		idx.dateCounts[date]++
 	}
-	for payee, postings := range fi.PayeeTemplates {
-		idx.payeeTemplates[payee] = postings
-	}
 	idx.refreshDerived()
 }
 
@@ -195,9 +192,6 @@ func (idx *WorkspaceIndex) removeFileIndex(path string, fi *FileIndex) {
 	}
 	for _, date := range fi.Dates {
 		idx.decrementBy(idx.dateCounts, date, 1)
-	}
-	for payee := range fi.PayeeTemplates {
-		delete(idx.payeeTemplates, payee)
 	}
 	idx.refreshDerived()
 }
@@ -231,6 +225,29 @@ func (idx *WorkspaceIndex) refreshDerived() {
 	idx.tags = sortedKeys(idx.tagCounts)
 	idx.tagValues = buildTagValues(idx.tagValueCounts)
 	idx.dates = sortedKeys(idx.dateCounts)
+	idx.payeeTemplates = buildPayeeTemplates(idx.fileIndexes)
+}
+
+// buildPayeeTemplates merges the per-file payee templates. Templates are
+// stored by overwrite, so they cannot be maintained by adding and removing one
+// file's contribution: removing a file that shares a payee with another file
+// would drop the other file's template. They are rebuilt from all indexed files
+// instead, in sorted path order (the last path providing a payee wins), which
+// makes the result independent of the order in which files were updated.
+func buildPayeeTemplates(fileIndexes map[string]*FileIndex) map[string][]analyzer.PostingTemplate {
+	paths := make([]string, 0, len(fileIndexes))
+	for path := range fileIndexes {
+		paths = append(paths, path)
+	}
+	sort.Strings(paths)
+
+	templates := make(map[string][]analyzer.PostingTemplate)
+	for _, path := range paths {
+		for payee, postings := range fileIndexes[path].PayeeTemplates {
+			templates[payee] = postings
+		}
+	}
+	return templates
 }
 
 func buildTagValues(counts map[string]map[string]int) map[string][]string {
